@@ -397,6 +397,11 @@ func c05Run(env *verifsim.Env, raw json.RawMessage) *verifsim.Violation {
 					}
 					return
 				}
+				// an acknowledged delete is a tombstone revision, an acknowledged edit is not
+				if ri := doc.History[a.Rev]; ri != nil && ri.Deleted != a.Deleted {
+					vio = verifsim.Vf("C05", "ack-kind", "acknowledged revision %s of %s (writer %s) was requested with deleted=%v but is stored with deleted=%v", a.Rev, id, a.Writer, a.Deleted, ri.Deleted)
+					return
+				}
 				// (ii) strictly greater than the write it superseded
 				if ps, ok := seqOfRev[id+"/"+a.Parent]; ok && a.Parent != "" && a.Seq != 0 && a.Seq <= ps {
 					vio = verifsim.Vf("C05", "sequence-order", "revision %s of %s got sequence %d, not greater than its parent's %d", a.Rev, id, a.Seq, ps)
@@ -463,7 +468,7 @@ func c05Run(env *verifsim.Env, raw json.RawMessage) *verifsim.Violation {
 			for _, r := range rows {
 				if r.ID == id {
 					found = true
-					if r.Rev != doc.GetRevTreeID() || r.SeqNum != doc.Sequence {
+					if r.Rev != doc.GetRevTreeID() || r.SeqNum != doc.Sequence || r.Deleted != doc.IsDeleted() {
 						vio = verifsim.Vf("C05", "changes-final", "%s: changes feed announces rev %s seq %d, document is at rev %s seq %d", id, r.Rev, r.SeqNum, doc.GetRevTreeID(), doc.Sequence)
 						return
 					}
